@@ -301,6 +301,25 @@ def expectations(sigs):
     return missing
 
 
+def routing_index_results(tier):
+    """the third user of hashtable.h: the per-owner routing index as src/router.c drives it (insert on forward, remove on answer /
+    deadline, scans over all slots when a peer leaves), in the real daemon with a 4-slot and a 16-slot index, so that ids collide
+    and entries get displaced; oracle: the routing ledger (exactly one final answer per routed request)"""
+    from . import scen_bus  # noqa: F401 (scenario registration)
+    q = tier == "quick"
+    w = dict(add=8, remove=2, change=1, fetch=1, unfetch=0, get=1, route=40, reply=18, advance=6, connect=3, disconnect=8, misc=0)
+    s = runner.seed()
+    cases = []
+    for i in range(60 if q else 2500):
+        cases.append(dict(kind="bus", seed=(s + 61) * 1000003 + i, config="tiny" if i % 2 else "odd", lane="asan",
+                          params=dict(n_ops=90, opts=dict(weights=w, hostile_owner=0.1, n_peers=(3, 5)))))
+    out = runner.run_cases(cases)
+    for r in out:
+        r.case.setdefault("type", "routing-index")
+        r.case.setdefault("order", 2 if r.case.get("config") == "tiny" else 4)
+    return out
+
+
 def table_wrapper_results(tier):
     """the path-index wrappers of src/table.c (what the daemon actually calls) against a linear reference map: keys incl. the
     empty string, prefixes of each other, case variants, long keys and groups that share a home bucket"""
@@ -392,6 +411,7 @@ def main(tier):
         "expected_but_unobserved": missing,
     }
     results += table_wrapper_results(tier)
+    results += routing_index_results(tier)
     code = runner.report(prop="C17", level="exploration", results=repro + results, rule=RULE, t0=t0, tier_name=tier,
                          assumptions=ASSUMPTIONS, extra_cov=extra,
                          min_events={"put-with-displacement": 1, "displaced-wrapped": 1, "put-wrapped": 1, "put-full": 1,
